@@ -41,10 +41,41 @@ class _Lift(ast.NodeTransformer):
                 ast.Call(ast.Name("_vl_encode", ast.Load()), [node.func.value] + node.args, node.keywords), node)
         return node
 
+    fstrings = False
+
     def visit_JoinedStr(self, node):
-        return node  # f-strings are text
+        if not self.fstrings:
+            return node  # f-strings are text
+        # f"..{v:spec}.." -> _vl_fstr("..", _vl_fval(v, conversion, "spec"), "..") so that formatting a
+        # symbolic int does not realise it (lbytes.l_fval does fixed-radix arithmetic instead)
+        parts = []
+        for p in node.values:
+            if isinstance(p, ast.FormattedValue):
+                spec = p.format_spec
+                if spec is None:
+                    spec = ast.Constant("")
+                elif isinstance(spec, ast.JoinedStr):
+                    spec = self.visit_JoinedStr(spec)
+                parts.append(ast.Call(ast.Name("_vl_fval", ast.Load()),
+                                      [self.visit(p.value), ast.Constant(p.conversion), spec], []))
+            else:
+                parts.append(p)
+        return ast.copy_location(ast.Call(ast.Name("_vl_fstr", ast.Load()), parts, []), node)
 
     def visit_MatchValue(self, node):
+        return node
+
+    bitops = False
+    _BITOPS = {ast.BitAnd: "_vl_bitand", ast.BitOr: "_vl_bitor", ast.BitXor: "_vl_bitxor",
+               ast.LShift: "_vl_shl", ast.RShift: "_vl_shr"}
+
+    def visit_BinOp(self, node):
+        # a & b, a | b, a ^ b, a << n, a >> n -> arithmetic shims (CrossHair's symbolic ints go through
+        # bit-vector conversions for these, which z3 does not finish); non-int operands fall through
+        self.generic_visit(node)
+        if self.bitops and type(node.op) in self._BITOPS:
+            return ast.copy_location(
+                ast.Call(ast.Name(self._BITOPS[type(node.op)], ast.Load()), [node.left, node.right], []), node)
         return node
 
 
@@ -53,6 +84,9 @@ def _shim_ns():
         "__LB__": lbytes.LBytes, "bytes": lbytes.LBytes, "bytearray": lbytes.LBuf,
         "_vl_int": lbytes.l_int, "_vl_bytes": lbytes.l_bytes, "_vl_memoryview": lbytes.l_memoryview,
         "_vl_encode": _l_encode, "struct": lbytes.l_struct, "BytesIO": lbytes.LBytesIO,
+        "_vl_fstr": lbytes.l_fstr, "_vl_fval": lbytes.l_fval,
+        "_vl_bitand": lbytes.l_bitand, "_vl_bitor": lbytes.l_bitor, "_vl_bitxor": lbytes.l_bitxor,
+        "_vl_shl": lbytes.l_shl, "_vl_shr": lbytes.l_shr,
     }
 
 
@@ -78,7 +112,7 @@ class _NS(types.SimpleNamespace):
 
 
 def lift(modname, names=None, overrides=None, call_shims=None, encode_calls=False, use_re=False,
-         extra_shims=None):
+         extra_shims=None, fstrings=False, bitops=False):
     mod = importlib.import_module(modname)
     if api.MODE == "real":
         ns = _NS(**{k: v for k, v in mod.__dict__.items() if not k.startswith("__")})
@@ -91,6 +125,8 @@ def lift(modname, names=None, overrides=None, call_shims=None, encode_calls=Fals
     tree = ast.parse(src)
     ov = dict(overrides or {})
     lf = _Lift(shims, encode_calls)
+    lf.fstrings = fstrings
+    lf.bitops = bitops
     sh = _shim_ns()
     if use_re:
         sh["re"] = lbytes.l_re
